@@ -931,3 +931,56 @@ def def_blocks_of(ctx, operand, depth=8):
             else:
                 out.add(bb)
     return out
+
+
+def _param_names(body):
+    out = {}
+    for n, p, a in body.vdi:
+        if not p.proj and 1 <= p.local <= body.argc:
+            out[p.local - 1] = n
+    return out
+
+
+def no_crossed_parameters(chk, prog, rule, prefixes):
+    """a function that has parameters `p` and `q` of the same type and forwards `p` to a callee's
+    parameter that is called `q` (while its own `q` is at hand) has most likely crossed them —
+    `editor.version(threshold)`, `delegate_role(.., version)`; the type checker cannot see it"""
+    n_sites = 0
+    for b in prog.bodies.values():
+        if "/.cargo/" in b.file or "/tests/" in b.file:
+            continue
+        if not any(b.path.startswith(p) or b.path.startswith("<" + p) or (" as " + p) in b.path for p in prefixes):
+            continue
+        fb = prog.body(short_fn(b.path)) if b.kind == "Closure" else b
+        if fb is None:
+            continue
+        cn = _param_names(fb)
+        ctys = {nm: fb.locals[i + 1]["ty"] for i, nm in cn.items()}
+        if len(ctys) < 2:
+            continue
+        ctx = ctx_of(prog, b.path)
+        for bb, t in b.calls():
+            callee = t.resolved or t.callee
+            if not callee:
+                continue
+            cb = prog.body(strip_generics(callee)) or prog.body(callee)
+            if cb is None or "/.cargo/" in cb.file:
+                continue
+            qn = _param_names(cb)
+            for i, a in enumerate(t.args):
+                if i not in qn or a.place is None:
+                    continue
+                og = ctx.origins.of_operand(a)
+                if len(og) != 1:
+                    continue
+                o = next(iter(og))
+                if o.kind not in ("param", "upvar") or o.fields:
+                    continue
+                n_sites += 1
+                p_, q_ = o.key[1], qn[i]
+                if p_ != q_ and q_ in ctys and p_ in ctys and ctys[q_] == ctys[p_]:
+                    chk.fail(rule, short_fn(b.path), "crossed-parameters:%s-as-%s" % (p_, q_),
+                             "%s passes its parameter `%s` as `%s` of %s although it has a parameter `%s` of the same type (%s): "
+                             "the two are most likely swapped" % (short_fn(b.path), p_, q_, callee.split("::")[-1], q_, ctys[p_][:60]),
+                             site_of(t.sp))
+    chk.ok(rule, "scope " + ",".join(prefixes), "no-crossed-parameters", detail="forwarded parameters examined=%d" % n_sites)
